@@ -195,9 +195,16 @@ def check_c19(pid, tier):
 CHECKS = {"C11": check_c11, "C18": check_c18, "C19": check_c19}
 
 
+MONITORS = {"C11": "MirrorContractTrace", "C12": "ShardingContractTrace", "C13": "CompletenessContractTrace", "C17": "ReadThroughContractTrace",
+            "C18": "AuthContractTrace", "C19": "RoutingContractTrace"}
+
+
 def check(pid, tier, replay=None):
     if pid not in CHECKS:
         raise Broken("no check for " + pid)
+    if replay:
+        cfg = 'SPECIFICATION TSpec\nPOSTCONDITION Accepted\nCHECK_DEADLOCK FALSE\nCONSTANT Layer = "contract"\n' if pid == "C13" else None
+        return vlib.replay_observation(pid, MONITORS[pid], replay, cfg)
     return CHECKS[pid](pid, tier)
 
 
